@@ -1,6 +1,6 @@
 SPECIFICATION Spec
 CONSTANTS
-  NS = 3
+  NS = 2
   Topics = {"a", "b"}
   UserTypes = {"A"}
   BadTypes = {"X"}
@@ -14,8 +14,8 @@ CONSTANTS
   FreeNodes = FALSE
   Delays <- Delay2
   Offsets <- Off0
-  MaxPub = 4
-  Horizon = 3
+  MaxPub = 3
+  Horizon = 2
   Budgets = {1}
   Kinds = {"sink", "relay", "follower"}
   Acyclic = TRUE
